@@ -63,6 +63,7 @@ func Exec(c Case, cap time.Duration) (o Outcome) {
 	logf.Close()
 	logData, _ := os.ReadFile(lf)
 	o.Stage = lastStage(logData)
+	o.Races = raceBlocks(logData)
 	if ctx.Err() != nil {
 		o.Status = "capped"
 		o.Detail = tail(logData, 1500)
@@ -117,6 +118,24 @@ func Exec(c Case, cap time.Duration) (o Outcome) {
 	o.Res = &res
 	o.Status = "ok"
 	return o
+}
+
+// raceBlocks keeps the race detector's reports of a worker's log.
+func raceBlocks(log []byte) string {
+	const head = "WARNING: DATA RACE"
+	if !bytes.Contains(log, []byte(head)) {
+		return ""
+	}
+	var sb strings.Builder
+	for _, blk := range strings.Split(string(log), head)[1:] {
+		if i := strings.Index(blk, "=================="); i >= 0 {
+			blk = blk[:i]
+		}
+		sb.WriteString(head)
+		sb.WriteString(blk)
+		sb.WriteString("==================\n")
+	}
+	return sb.String()
 }
 
 var hangKindRe = regexp.MustCompile(`(?m)^PLATLAT-HANG-KIND (\S+)`)
